@@ -174,6 +174,24 @@ def sensitivity(ids):
     return ok, lines
 
 
+def stubfidelity():
+    """Engine C runs the start-up code against a STUB of CPython.  As a cross-check of the stub (it decides
+    nothing about the property) the repository's own embedding tests -- real libpython, real threads, one
+    uncontrolled schedule each -- are run against the working tree; they need PYTHONPATH to find the package."""
+    td = tempfile.mkdtemp(prefix='cffi-verif-embed-', dir='/tmp')
+    try:
+        env = dict(os.environ, PYTHONPATH='/repo/src', TMPDIR=td)
+        p = subprocess.run(['/venv/bin/python', '-m', 'pytest', '-q', '-p', 'no:cacheprovider', 'testing/embedding'],
+                           cwd='/repo', env=env, stdout=subprocess.PIPE, stderr=subprocess.STDOUT, timeout=3000)
+        tail = p.stdout.decode('utf-8', 'replace').strip().splitlines()[-1]
+    finally:
+        shutil.rmtree(td, ignore_errors=True)
+        subprocess.call('rm -rf /repo/testing/embedding/__pycache__', shell=True)
+    line = 'C28 stub-fidelity cross-check: real embedding tests (testing/embedding, PYTHONPATH=/repo/src): %s' % tail
+    print(line)
+    return True, [line]
+
+
 def main():
     args = sys.argv[1:]
     if not args:
@@ -190,6 +208,9 @@ def main():
         ok, lines = determinism(ids, nmul)
     elif mode == 'sensitivity':
         ok, lines = sensitivity(ids)
+    elif mode == 'stubfidelity':
+        ok, lines = stubfidelity()
+        ids = ['C28']
     else:
         print(__doc__)
         return 2
